@@ -19,6 +19,16 @@ NA = {
 }
 
 CHECKS = {
+ "C04": dict(
+   engine="E1 lifecycle with evaluation monitor",
+   technique="deterministic simulation: every argument reaching the wrapped posterior/gradient and every stored sample is monitored against a model of the limits in force, under seeded histories of limit-setting calls and steps with tail-draw injection and huge proposal widths; exact rational fold as reference",
+   text=("Model = per-parameter limits in force, updated by the generated set_boundaries / remove / set_non_negative calls or fixed "
+         "by constructor bounds. Oracles: every evaluated point and stored sample inside the closed limits (4 ulp at limit scale); "
+         "Gibbs proposals equal the exact rational fold of the recorded raw draw; Bounds.reflect / reflect_momenta equal the exact "
+         "fold incl. multi-wrap overshoots, identity inside, momentum factor -1 exactly for odd reflection counts; a bounded "
+         "trajectory run forward, negated and run again returns to its start (diagonal mass)."),
+   design_ref="DESIGN.md 3.3",
+   note="Trusted: limits are only set where they contain the parameter's current value; reversibility is only demanded for scalar/vector mass (with a matrix mass component flips do not reverse the trajectory - see DESIGN.md, C01 finding)."),
  "C09": dict(
    engine="E1 lifecycle with crash-restart op",
    technique="deterministic simulation with crash/restart injection: a shadow sampler is saved to a real .npz, dropped and reloaded at generated points and must stay bit-identical (read-outs and continuation) to a primary that never was; Hypothesis-generated histories with shrinking",
